@@ -161,7 +161,13 @@ def check_one(args):
     res = []
     for m in ms:
         sh('git checkout -q -- .', wt)
-        apply(wt, m)
+        # the survivor's recorded diff (tolerates line offsets when /repo's HEAD has moved since the filter phase)
+        rc, o = sh('git apply %s' % os.path.join(out, 'survivors', slug(m) + '.diff'), wt)
+        if rc != 0:
+            line = 'STALE %s (the mutated line was changed by a later commit)' % m['id']
+            print(line, flush=True)
+            res.append(line)
+            continue
         got = []
         for P in (props or CHECKS[m['area']]):
             r = os.path.join(out, 'r-%d' % k)
